@@ -81,7 +81,7 @@ PROPS["C20"] = dict(_SEEK_COMMON, sources=["props/c20.cpp"], design_ref="3.21",
 
 PROPS["C16"] = dict(
     engine="rc", engine_name="rc-tape", sources=["props/c16.cpp"], level="exploration", design_ref="3.17",
-    quick=dict(cases=2500), thorough=dict(cases=30000),
+    quick=dict(cases=2500), thorough=dict(cases=30000, fuzz_seconds=90),
     technique="property-based testing (rapidcheck tapes): pack/unpack round trip of generated comment lists, independent parser of the packet, reference model of the tag queries",
     level_text="Generated comment lists (0..3000 entries, lengths 0..350 kB, arbitrary bytes, embedded zeros and NULL entries through hand-built arrays, C strings through vorbis_comment_add/add_tag), packed by "
                "vorbis_commentheader_out or vorbis_analysis_headerout, parsed by an independent spec-level reader, unpacked by vorbis_synthesis_headerin and read through ov_comment; exact oracle on count, lengths, bytes, "
@@ -169,7 +169,7 @@ PROPS["C12"] = dict(
 
 PROPS["C15"] = dict(
     engine="rc", engine_name="rc-tape", sources=["props/c15.cpp"], level="exploration", design_ref="3.16",
-    quick=dict(cases=150), thorough=dict(cases=6000),
+    quick=dict(cases=150), thorough=dict(cases=6000, fuzz_seconds=120),
     technique="property-based testing (rapidcheck tapes): generated argument tuples and vorbis_encode_ctl sequences through all four set-up entry points; oracle on return codes, cleared structures, reported channels/rate, a decodable header triple and a short encode; ASan/UBSan/LSan",
     level_text="Generated channels in [-1,300], rates in [-1,2^31-1] dense around the template boundaries (+-2), qualities incl. out-of-range/NaN/inf, bitrate triples incl. 0, -1, inverted and huge, 0..8 vorbis_encode_ctl requests (all 12 request "
                "numbers, unknown numbers, NULL where defined, values at and beyond each clamp) before and after vorbis_encode_setup_init. Oracle: only documented return codes; failed one-step calls leave vorbis_info all-zero; vorbis_info_clear "
@@ -239,7 +239,7 @@ PROPS["C06"] = dict(
 
 PROPS["C02"] = dict(
     engine="rc", engine_name="rc-tape", sources=["props/c02.cpp"], level="exploration", design_ref="3.2", tape_scale=6,
-    quick=dict(cases=900), thorough=dict(cases=40000),
+    quick=dict(cases=900), thorough=dict(cases=40000, fuzz_seconds=300),
     technique="structure-aware fuzzing through the tape engine (rapidcheck-generated and shrunk; the same body runs under libFuzzer in the thorough tier): valid vgen/encoder headers and packets with field-level mutation at the exact bit positions of header fields, byte-level damage and generated call scripts; oracle = ASan/UBSan/LSan + 8 MiB stack + documented return-code sets + pcmout bounds + clear functions",
     level_text="Inputs: complete valid streams from vgen (every setup feature, up to 255 channels, 64..8192 blocks, ordered codebooks of up to 2^22 entries) or the encoder; 0..4 mutations: any setup/identification field overwritten with 0, 1, max, max-1, "
                "mid or random (positions logged by the header writer), truncation at any byte, bit flips, random bytes, reordered or replaced headers, damaged audio packets, perturbed b_o_s/e_o_s/granulepos/packetno. Scripts of 4..44 calls "
@@ -254,7 +254,7 @@ PROPS["C02"] = dict(
 
 PROPS["C03"] = dict(
     engine="rc", engine_name="rc-tape", sources=["props/c03.cpp"], level="exploration", design_ref="3.4", tape_scale=6,
-    quick=dict(cases=800), thorough=dict(cases=20000),
+    quick=dict(cases=800), thorough=dict(cases=20000, fuzz_seconds=300),
     technique="structure-aware fuzzing through the tape engine (rapidcheck-generated and shrunk; the same body runs under libFuzzer in the thorough tier): generated chained streams damaged at the page level (with checksum repair), every open mode, generated scripts over all public vorbisfile calls; oracle = ASan/UBSan/LSan + callback work budget + documented return codes + close accounting",
     level_text="Physical streams: chains of 1..16 encoder/synthetic links (64..4096 blocks, 1..255 channels), then 0..4 damage steps on the page structure (drop, duplicate, move pages; edit granule position, serial number, flags, sequence number, "
                "version, lacing values; truncate anywhere; bit flips; garbage incl. fake capture patterns between pages; EOS removed; first link appended again = repeated serial number), checksums repaired in 4 of 5 cases. Opens: seekable, "
